@@ -119,6 +119,8 @@ structure SitesOK (k : SymSites) : Prop where
   scan1Cond : ∀ f n, k.scan1Cond f n = decide (f.toNat < n.toNat)
   scan1NonLocal : ∀ b, k.scan1NonLocal b = !(b.toNat / 16 == 0)
   curInit : ∀ f, k.curInit f = BitVec.setWidth 64 (f + 1#32)
+  fnlIncr : ∀ f, k.fnlIncr f = f + 1#32
+  curIncr : ∀ c, k.curIncr c = c + 1#64
   scan2Cond : ∀ c n, k.scan2Cond c n = decide (c.toNat < n.toNat)
   scan2Local : ∀ b, k.scan2Local b = (b.toNat / 16 == 0)
   both : ∀ f n c, k.both f n c = (decide (f.toNat < n.toNat) && decide (c.toNat < n.toNat))
@@ -155,13 +157,15 @@ theorem sites64_ok : SitesOK sites64 where
     simp [sites64, arr64_scan1_cond, BitVec.ult, hf]
   scan1NonLocal := by
     intro b
-    show arr64_scan1_nonlocal b = _
+    show arr64_scan1_nonlocal arr_conv8 b = _
     rw [arr_scan1_nonlocal_bits, ← shr4_eq_zero]; simp [bne]
   curInit := by intro f; rfl
+  fnlIncr := by intro f; rfl
+  curIncr := by intro c; rfl
   scan2Cond := by intro c n; simp [sites64, arr64_scan2_cond, BitVec.ult]
   scan2Local := by
     intro b
-    show arr64_scan2_local b = _
+    show arr64_scan2_local arr_conv8 b = _
     rw [arr_scan2_local_bits, shr4_eq_zero]
   both := by
     intro f n c
@@ -191,13 +195,15 @@ theorem sites32_ok : SitesOK sites32 where
     simp [sites32, arr32_scan1_cond, BitVec.ult, hf]
   scan1NonLocal := by
     intro b
-    show arr64_scan1_nonlocal b = _
+    show arr64_scan1_nonlocal arr_conv8 b = _
     rw [arr_scan1_nonlocal_bits, ← shr4_eq_zero]; simp [bne]
   curInit := by intro f; rfl
+  fnlIncr := by intro f; rfl
+  curIncr := by intro c; rfl
   scan2Cond := by intro c n; simp [sites32, arr32_scan2_cond, BitVec.ult]
   scan2Local := by
     intro b
-    show arr64_scan2_local b = _
+    show arr64_scan2_local arr_conv8 b = _
     rw [arr_scan2_local_bits, shr4_eq_zero]
   both := by
     intro f n c
@@ -320,7 +326,7 @@ theorem scan1_refines {k s d n} (hk : SitesOK k) (h : SymWF k s d n) :
       have hp := symPtr_eq hk h (k.p1Index f) (by rw [hidx]; exact hlt)
       rw [hidx] at hp
       obtain ⟨b, hb, hloc⟩ := readInfo_eq hk h "arrange_local_symbols/p1->st_info" f.toNat hlt
-      simp only [hlt, decide_true, if_true, hp, hb, hk.scan1NonLocal, hloc]
+      simp only [hlt, decide_true, if_true, hp, hb, hk.scan1NonLocal, hloc, hk.fnlIncr]
       by_cases hl : isLocalRec k.infoOff (slice d (f.toNat * s.entSize.toNat) k.symSize) = true
       · simp only [hl, Bool.not_true, Bool.false_eq_true, if_false]
         have hf1 : (f + 1#32).toNat = f.toNat + 1 := by
@@ -356,7 +362,7 @@ theorem scan2_refines {k s d n} (hk : SitesOK k) (h : SymWF k s d n) :
       have hp := symPtr_eq hk h (k.p2Index c) (by rw [hidx]; exact hlt)
       rw [hidx] at hp
       obtain ⟨b, hb, hloc⟩ := readInfo_eq hk h "arrange_local_symbols/p2->st_info" c.toNat hlt
-      simp only [hlt, decide_true, if_true, hp, hb, hk.scan2Local, hloc]
+      simp only [hlt, decide_true, if_true, hp, hb, hk.scan2Local, hloc, hk.curIncr]
       by_cases hl : isLocalRec k.infoOff (slice d (c.toNat * s.entSize.toNat) k.symSize) = true
       · simp only [hl, if_true]
         exact ⟨c, _, rfl, rfl, fun _ => rfl⟩
